@@ -306,8 +306,11 @@ CriteriaExpect(f, args) ==
 NumberAlphabet == (48..57) \cup {43, 45, 46, 101, 69, 95, 32, 9, 10, 13}
 SurelyNotNumeric(s) == \/ \A i \in 1..Len(s) : s[i] \in {32, 9, 10, 13}
                        \/ \E i \in 1..Len(s) : s[i] \notin NumberAlphabet
+BN == INSTANCE BigNat
+(* a float given exactly, as sign and numerator / denominator digit strings (the recorder adds them): [k |-> "f", ...] *)
 MathArg(v) ==
   CASE v.t = "num" -> [k |-> "q", q |-> QOf(v)]
+    [] v.t = "flt" /\ "nd" \in DOMAIN v -> [k |-> "f", neg |-> v.neg, num |-> BN!BOfDigits(v.nd), den |-> BN!BOfDigits(v.dd)]
     [] v.t = "bool" -> [k |-> "q", q |-> QI(IF v.b THEN 1 ELSE 0)]
     [] v.t = "txt" -> IF NumericText(v.s).ok THEN [k |-> "q", q |-> NumericText(v.s).q]
                       ELSE IF TextIsPlain(v.s) \/ SurelyNotNumeric(v.s) THEN [k |-> "text"] ELSE [k |-> "unspec"]
@@ -325,6 +328,16 @@ InDomain1(f, x) ==
     [] f = "ATANH" -> AbsI(x.n) < x.d
     [] f = "ACOTH" -> AbsI(x.n) > x.d
     [] f = "COT" -> x.n # 0
+(* the same for an exactly given float a = +-num/den (never zero): compared with the bounds of the domain by BigNat *)
+InDomainF(f, a) ==
+  CASE f \in Real1 -> TRUE
+    [] f \in {"SQRT", "LN", "LOG10"} -> ~a.neg
+    [] f \in {"ASIN", "ACOS"} -> BN!BLe(a.num, a.den)
+    [] f = "ACOSH" -> ~a.neg /\ BN!BLe(a.den, a.num)
+    [] f = "ATANH" -> BN!BLt(a.num, a.den)
+    [] f = "ACOTH" -> BN!BLt(a.den, a.num)
+    [] f = "COT" -> TRUE
+FSmall(a) == BN!BLe(a.num, BN!BMulAdd(a.den, 600, 0))
 Math1 == Real1 \cup {"SQRT", "LN", "LOG10", "ASIN", "ACOS", "ACOSH", "ATANH", "ACOTH", "COT"}
 ArgSmall(x) == AbsI(x.n) <= 600 * x.d            \* keeps EXP, SINH, COSH away from overflow
 
@@ -334,6 +347,7 @@ MathExpect(f, args) ==
        ELSE LET a == MathArg(args[1]) IN
             IF a.k = "unspec" THEN EAny
             ELSE IF a.k = "text" THEN EAnyErr
+            ELSE IF a.k = "f" THEN (IF ~FSmall(a) THEN EAny ELSE IF InDomainF(f, a) THEN EAnyNum ELSE EAnyErr)
             ELSE IF ~ArgSmall(a.q) THEN EAny
             ELSE IF InDomain1(f, a.q) THEN EAnyNum ELSE EAnyErr
   ELSE IF Len(args) # 2 THEN EAny
@@ -341,6 +355,7 @@ MathExpect(f, args) ==
            b == MathArg(args[2])
        IN IF a.k = "unspec" \/ b.k = "unspec" THEN EAny
           ELSE IF a.k = "text" \/ b.k = "text" THEN EAnyErr
+          ELSE IF a.k = "f" \/ b.k = "f" THEN EAny
           ELSE IF ~ArgSmall(a.q) \/ ~ArgSmall(b.q) THEN EAny
           ELSE CASE f = "ATAN2" -> IF a.q.n = 0 /\ b.q.n = 0 THEN EErrs({"#DIV/0!"}) ELSE EAnyNum
                  [] f = "LOG" -> IF QPos(a.q) /\ QPos(b.q) /\ ~(b.q.n = b.q.d) THEN EAnyNum ELSE EAnyErr
